@@ -1,4 +1,4 @@
 #!/bin/bash
 # usage: tools/keep2.sh <Cxx> <K> <detected|missed> "<note>" [detected_by csv] — keep a confirmed round-2 change as seeded/<Cxx>-m<K+3>
 P=$1; K=$2; shift 2
-MUT_SRC=/tmp/mut/$P.r2 MUT_ID=$((K+3)) python3 /verif/tools/keep_mutant.py $P $K "$@"
+MUT_SRC=/tmp/mut/$P.${ROUND:-r2} MUT_ID=$((K+${OFFSET:-3})) python3 /verif/tools/keep_mutant.py $P $K "$@"
